@@ -16,9 +16,15 @@ tvars == <<i, j, phase, k, list, noiter>>
 C == Cases[i]
 NEv == Len(C.calls)
 Ev == C.calls[j]
-CanOut == j <= NEv /\ phase = "out" /\ Ev.ph = "fit" /\ Ev.k = k /\ (noiter <=> Ev.code = 4)
-CanIn == j <= NEv /\ phase = "in" /\ Ev.ph = "fit" /\ Ev.k = k /\ Ev.code # 4
-CanCentral == phase = "central" /\ (C.par.MinZero => (j <= NEv /\ Ev.ph = "central"))
+\* iteration counts of EllipseFitter.fit (defaults minit = 10, maxit = 50; the first isophote runs with 2 * minit): a converged fit
+\* (code 0) needs at least minit iterations, code 2 means exactly maxit, the non-iterative mode (code 4) and the central pixel none
+NiterOK(e, first) == CASE e.code = 0 -> e.niter >= (IF first THEN 20 ELSE 10) /\ e.niter <= 50
+                       [] e.code = 2 -> e.niter = 50
+                       [] e.code = 4 -> e.niter = 0
+                       [] OTHER -> e.niter >= 1 /\ e.niter <= 50
+CanOut == j <= NEv /\ phase = "out" /\ Ev.ph = "fit" /\ Ev.k = k /\ (noiter <=> Ev.code = 4) /\ NiterOK(Ev, j = 1)
+CanIn == j <= NEv /\ phase = "in" /\ Ev.ph = "fit" /\ Ev.k = k /\ Ev.code # 4 /\ NiterOK(Ev, FALSE)
+CanCentral == phase = "central" /\ (C.par.MinZero => (j <= NEv /\ Ev.ph = "central" /\ Ev.niter = 0 /\ Ev.code = 0))
 StepOut == CanOut /\ FitOut(C.par, Ev.code) /\ j' = j + 1 /\ i' = i
 StepIn == CanIn /\ FitIn(C.par, Ev.code) /\ j' = j + 1 /\ i' = i
 StepCentral == CanCentral /\ CentralAndSort(C.par) /\ j' = (IF C.par.MinZero THEN j + 1 ELSE j) /\ i' = i
